@@ -28,13 +28,16 @@ def lengthsDown : Nat → Nat → List Nat
   | 0, min => if min = 0 then [0] else []
   | k + 1, min => if k + 1 < min then [] else (k + 1) :: lengthsDown k min
 
+/-- record a captured text, if the group is a capturing one -/
+def capAdd (cap : Option Cap) (t : List Char) (c : Caps) : Caps :=
+  match cap with
+  | some n => (n, t) :: c
+  | none => c
+
 /-- greedy run of at least `min` characters satisfying `f`, longest first; optional capture -/
 def pRun (f : Char → Bool) (min : Nat) (cap : Option Cap) : PP := fun s c =>
   let run := s.takeWhile f
-  (lengthsDown run.length min).map fun k =>
-    (s.drop k, match cap with
-      | some n => (n, s.take k) :: c
-      | none => c)
+  (lengthsDown run.length min).map fun k => (s.drop k, capAdd cap (s.take k) c)
 
 /-- one of several literals, first match in list order wins first; captured -/
 def pCapLit (name : Cap) (alts : List (List Char)) : PP := fun s c =>
